@@ -190,17 +190,19 @@ theorem argv_encodes_method_url_headers (p : Bool) (addr : Option Bytes) (r : Re
         (if r.method ≠ sGET ∧ r.body = .none then [sCL0] else []) ∧
       c.compressed = (popHeaders r.host r.headers).any (fun h => lname h.1 = sAE) := by
   obtain ⟨rs, hrs⟩ := dec_resolve p addr r
-    (curlHeaderArgs (popHeaders r.host r.headers) ++ (methodArgs r ++ r.url :: dataArgs d)) {}
+    (curlHeaderArgs (popHeaders r.host r.headers) ++ (methodArgs r ++ r.url :: dataArgs d))
+    { globoff := ({} : Curl).globoff || hasGlob r.url, pathAsIs := ({} : Curl).pathAsIs || hasSlashDot r.url }
   have hdec : decodeCurl (curlArgs p addr r ++ dataArgs d) =
       decodeCurlArgs (dataArgs d) .none
         { method := if r.method ≠ sGET then some r.method else if r.body ≠ .none then some sGET else none,
           headers := ((popHeaders r.host r.headers).filter (fun h => lname h.1 ≠ sAE)).map headerArg ++
             (if r.method ≠ sGET ∧ r.body = .none then [sCL0] else []),
           compressed := (popHeaders r.host r.headers).any (fun h => lname h.1 = sAE),
+          globoff := hasGlob r.url, pathAsIs := hasSlashDot r.url,
           resolve := rs, data := none, urls := [r.url] } := by
     rw [curlArgs_split]
     simp only [decodeCurl, List.cons_append, List.nil_append, List.append_assoc]
-    rw [hrs, dec_headers, dec_method]
+    rw [dec_glob, hrs, dec_headers, dec_method]
     rw [dec_url _ _ _ hurl]
     simp
   rw [hdec]
@@ -566,5 +568,80 @@ theorem old_empty_header_dropped_counterexample :
 
 example : headerArg ([120], [32, 9]) = [120, 59] ∧ headerArg ([120], [118]) = [120, 58, 32, 118] := by decide
 example : sentHeader [88, 59, 105, 100, 59] = none := by decide          -- "X;id;": a name containing ';' is outside the guard
+
+
+/-- **the URL is taken literally** (fixes in /repo: `--globoff`, `--path-as-is`): whenever the URL contains one of `[ ] { }` — which
+    curl would otherwise expand as a URL globbing pattern, requesting `/a` and `/b` for `/{a,b}` — curl's reading of the exported
+    argv has `--globoff` set; whenever it contains `/.` (a possible dot segment, which curl would remove: `/a/../b` → `/b`) it has
+    `--path-as-is` set; and there is exactly one URL, the request's. -/
+theorem curl_url_taken_literally (p : Bool) (addr : Option Bytes) (r : Req) (hurl : r.url.head? ≠ some 45) :
+    ∃ c, decodeCurl (curlArgs p addr r) = some c ∧ c.urls = [r.url] ∧ c.globoff = hasGlob r.url ∧
+      c.pathAsIs = hasSlashDot r.url := by
+  obtain ⟨rs, hrs⟩ := dec_resolve p addr r
+    (curlHeaderArgs (popHeaders r.host r.headers) ++ (methodArgs r ++ [r.url]))
+    { globoff := ({} : Curl).globoff || hasGlob r.url, pathAsIs := ({} : Curl).pathAsIs || hasSlashDot r.url }
+  have h : decodeCurl (curlArgs p addr r) = some
+      { method := if r.method ≠ sGET then some r.method else if r.body ≠ .none then some sGET else none,
+        headers := ((popHeaders r.host r.headers).filter (fun h => lname h.1 ≠ sAE)).map headerArg ++
+          (if r.method ≠ sGET ∧ r.body = .none then [sCL0] else []),
+        compressed := (popHeaders r.host r.headers).any (fun h => lname h.1 = sAE),
+        globoff := hasGlob r.url, pathAsIs := hasSlashDot r.url, resolve := rs, data := none, urls := [r.url] } := by
+    rw [curlArgs_split]
+    simp only [decodeCurl, List.cons_append, List.nil_append, List.append_assoc]
+    rw [dec_glob, hrs, dec_headers, dec_method, dec_url _ _ _ hurl]
+    simp [decodeCurlArgs]
+  exact ⟨_, h, rfl, rfl, rfl⟩
+
+/-- before the fix the argv of a request to `/{a,b}` had no `--globoff` -/
+example : hasGlob [47, 123, 97, 44, 98, 125] = true ∧ hasGlob [47, 112, 63, 97, 61, 98] = false := by decide
+example : hasSlashDot [47, 97, 47, 46, 46, 47, 98] = true ∧ hasSlashDot [104, 116, 116, 112, 58, 47, 47, 104, 46, 120, 47, 112] = false := by decide
+
+
+/-! ## the httpie clause beyond the argv: request items read by httpie's documented grammar (modelled, untied) -/
+
+/-- **httpie_items_read_back_partial**: for a header whose name contains none of `: = @ ; \` and whose value contains no `\`,
+    the item the exporter writes is read by httpie's (documented) item grammar as that header — `Name;` as the header with an
+    empty value, otherwise name and value (up to leading blanks).  `_partial`: names/values with item separators or backslashes
+    are outside; httpie's own default headers and the METHOD/URL positional rules are not modelled; nothing here is tied to httpie. -/
+theorem httpie_items_read_back_partial (h : Bytes × Bytes)
+    (hn : h.1.all (fun c => !isItemSep c && c != 92) = true) (hv : h.2.all (fun c => c != 92) = true) :
+    httpieItem (headerArg h) =
+      if h.2.all isPyWs then .emptyHeader h.1 else .header h.1 (h.2.dropWhile isPyWs) := by
+  have hsep : h.1.all (fun c => !isItemSep c) = true := by
+    simp only [List.all_eq_true, Bool.and_eq_true] at hn ⊢
+    exact fun c hc => (hn c hc).1
+  have hbs1 : (92 : UInt8) ∉ h.1 := by
+    intro hm
+    have := (List.all_eq_true.mp hn) 92 hm
+    simp at this
+  have hbs2 : (92 : UInt8) ∉ h.2 := by
+    intro hm
+    have := (List.all_eq_true.mp hv) 92 hm
+    simp at this
+  unfold headerArg httpieItem
+  by_cases hb : h.2.all isPyWs = true
+  · simp only [hb, if_true]
+    obtain ⟨t, d⟩ := tw8_app (fun c => !isItemSep c) h.1 59 [] hsep (by decide)
+    have hno : (h.1 ++ [59]).contains 92 = false := by simp [List.contains_eq_any_beq, hbs1]
+    simp [hno, t, d, hbs1]
+  · simp only [hb, Bool.false_eq_true, if_false]
+    obtain ⟨t, d⟩ := tw8_app (fun c => !isItemSep c) h.1 58 (32 :: h.2) hsep (by decide)
+    have e : h.1 ++ [58, 32] ++ h.2 = h.1 ++ 58 :: 32 :: h.2 := by simp
+    have hno : (h.1 ++ 58 :: 32 :: h.2).contains 92 = false := by simp [List.contains_eq_any_beq, hbs1, hbs2]
+    have hne : h.2.dropWhile isPyWs ≠ [] := by
+      intro hnil
+      exact hb (by simpa [List.all_eq_true] using dw8_nil isPyWs h.2 hnil)
+    rw [e, hno]
+    simp only [Bool.false_eq_true, if_false, d, t]
+    have h32 : isPyWs 32 = true := by decide
+    simp [List.dropWhile, h32, hne]
+
+/-- the defect fixed in /repo (0f1b16ec7), httpie side: the old item `Name: ` UNSETS the header -/
+theorem httpie_old_empty_header_counterexample :
+    httpieItem (headerArgOld ([120, 45, 101], [])) = .unsetHeader [120, 45, 101] ∧
+    httpieItem (headerArg ([120, 45, 101], [])) = .emptyHeader [120, 45, 101] := by decide
+
+example : httpieItem [97, 61, 98, 58, 32, 118] = .other := by decide       -- "a=b: v": read as a data field, outside the guard
+example : httpieItem [110, 58, 32, 118] = .header [110] [118] := by decide
 
 end MitmVerif.Props.C48
